@@ -30,6 +30,8 @@ def instances(tier, seed):
                 if pat == 'CH->nothing' and ra:
                     continue
                 add(f"ovl:{pat}:M2:ra={int(ra)}:ign={int(ign)}", pattern=pat, N=4, M=2, replace_all=ra, ignore=ign, cost=10)
+    add("ovl:CH->CH-moved:M2", pattern='CH->CH-moved', N=4, M=2, cost=10)
+    add("ovl:CCH->CN:M2", pattern='CCH->CN', N=5, M=2, cost=60)
     add("ovl:CHH->CHH:M2", pattern='CHH->CHH', N=4, M=2, cost=30)
     add("ovl:CHH->CHH:M2:replace_all", pattern='CHH->CHH', N=4, M=2, replace_all=True, cost=30)
     add("ovl:H->F:M3", pattern='H->F', N=4, M=3, cost=10)
